@@ -325,6 +325,21 @@ func codecCase(out *Out, t *Target, v *vval.Val, vs string, junk, u8, modelOK bo
 			if rs := proto.Size(dyn); rs != size {
 				out.Violate("C04", "size-vs-reference", fmt.Sprintf("Size=%d reference=%d", size, rs), replay("size"))
 			}
+			// the same two comparisons against a reference message that was filled through the reflection API alone:
+			// the reference above was decoded from the generated encoder's own bytes, so it cannot see what that
+			// encoder leaves out consistently (in Size and Marshal alike)
+			ind := dynamicpb.NewMessage(t.Desc)
+			built := false
+			pb, _ := guard(func() { built = vval.ToReflect(t.S, 0, v, ind.ProtoReflect()) })
+			if built && !pb {
+				out.Count("independent_reference_values")
+				if ib, err := (proto.MarshalOptions{Deterministic: true}).Marshal(ind); err == nil && !bytes.Equal(ib, detBytes) {
+					out.Violate("C02", "det-bytes-differ-independent", "deterministic bytes differ from the reference encoding of the same value built through reflection: pulsar="+hexs(detBytes)+" ref="+hexs(ib), replay("enc"))
+					if len(ib) != size {
+						out.Violate("C04", "size-vs-independent-reference", fmt.Sprintf("Size=%d, the reference encoding of the same value has %d bytes", size, len(ib)), replay("size"))
+					}
+				}
+			}
 			if modelOK {
 				out.Line("C02", "renc "+t.S.ID+" 0 "+vs, "ok "+hexs(refBytes))
 			}
